@@ -86,6 +86,12 @@ def interval(e, env, lens):
         return env[p]
     if e[0] == "mcall" and e[2] == "len" and not e[3]:
         return _iter_len(e[1], lens)
+    if e[0] == "call" and len(e[2]) == 1 and (path_of(e[1]) or "").split("::")[-1] == "from":
+        a0 = unblock(e[2][0])
+        if a0[0] == "mcall" and a0[2] in ("is_some", "is_none", "is_empty", "is_ok", "is_err", "contains", "any", "all") or a0[0] == "lit" and a0[1] == "bool" \
+                or (a0[0] == "binary" and a0[1] in ("==", "!=", "<", "<=", ">", ">=", "&&", "||")) or (a0[0] == "unary" and a0[1] == "!"):
+            return (0, 1)           # usize::from(bool)
+        return interval(a0, env, lens)
     if e[0] == "binary":
         a, b = interval(e[2], env, lens), interval(e[3], env, lens)
         if e[1] == "+":
@@ -148,6 +154,18 @@ def safe_ops(f, kind):
                 if a[1] * b[1] >= 2 ** 32:
                     return False
             elif op == "+":
+                # a length of an existing collection (usize, at most isize::MAX) plus a small amount cannot overflow
+                def is_len(x):
+                    x = unblock(x)
+                    if x[0] == "mcall" and x[2] in ("len", "count", "capacity") and not x[3]:
+                        return True
+                    if x[0] == "binary" and x[1] in ("/", "%", "-", ">>"):
+                        return is_len(x[2])          # a length made smaller is still at most a length
+                    if x[0] in ("cast", "paren"):
+                        return is_len(x[1])
+                    return False
+                if (is_len(l) and b[1] < 2 ** 32) or (is_len(r) and a[1] < 2 ** 32):
+                    continue
                 if a[1] + b[1] >= 2 ** 32:
                     return False
     return found
